@@ -29,6 +29,16 @@ CHECKS = {
     note="Trusted: TLC, Broadcast.tla, drv_broadcast.cpp. Mixed compile-time/run-time shape containers are C09's.",
     technique="TLA+ reference + implementation-shaped model, refinement and laws checked by TLC; TLC-generated tables replayed; trace validation",
     design="5/C06"),
+ "C07": dict(
+    text="TLC checks the laws of element-wise application (result shape = broadcast shape, operand order visible through the non-commutative recording operation mix, commutative ops, outer indexing) on all pairs of shapes of the scope; the recording operation is driven through the real ufunc machinery on every pair of shapes exported by TLC (array and scalar operands, outer), every integer-computable named ufunc on wiring-revealing shape pairs with in-domain data, and TraceOps.tla decides shape, every element and the result element class.",
+    note="Trusted: TLC, Ufunc.tla, drv_ufunc.cpp. Transcendental/float-only ufuncs are not interpreted by TLC; their shared wiring is covered by the recording operation, their scalar functors are not checked.",
+    technique="TLA+ reference semantics with a recording (non-commutative) operation; TLC law checking; trace validation of real ufunc results by TLC",
+    design="5/C07"),
+ "C08": dict(
+    text="TLC checks fold laws (reduce-all = fold of the C-ordered elements, partial sums, keepdims placement, initial, accumulate's last column = reduce) on the scope; every shape x every axis subset in positive/negative/reversed/mixed forms x keepdims (compile-time and run-time) x initial is executed on the real reduce view with the non-associative recording operation mix, the named reducers, accumulations and mean/var/stddev/vector_norm (exact integer identities), and TraceOps.tla decides every event.",
+    note="Trusted: TLC, Ufunc.tla (Reduce/Accumulate), drv_reduce.cpp (scaling of real-valued results to exact integers with 1e-6 relative rounding tolerance).",
+    technique="TLA+ reference semantics with a recording (non-associative) fold operation; TLC law checking; trace validation by TLC",
+    design="5/C08"),
 }
 
 NOT_APPLICABLE = {}
